@@ -46,6 +46,22 @@ Finite product, enumerated completely:
                  (thorough: also below items, additionalProperties, behind $ref;
                  a second valid/invalid string per family; ten more non-strings)
 
+Below every applicator -- the `format` keyword at the root and below everything a
+verdict, a cause or an escaping exception has to travel through (per draft, as far
+as the draft has the keyword): properties, items (both forms), additionalItems,
+additionalProperties, patternProperties, dependencies, allOf / anyOf / oneOf
+members, not (twice), if / then / else, contains, propertyNames, extends (both
+forms), a member of a Draft 3 type union, disallow (twice), $ref into definitions
+(at the root, below properties, through a second $ref, with properties below it
+and items above it) and $ref into a store document (a pointer into it / the whole
+document) -- for: no checker, FormatChecker(), the draft checkers, the checker
+subclasses, every custom function registered as "cust" on an empty checker (all
+return values, and every class of the exception alphabet under every `raises`
+registration), through iter_errors / is_valid / validate / jsonschema.validate.
+The verdict is the one of the model, an unlisted exception arrives as the raised
+object, and where the wrapping keyword shows the format error (directly or in
+`context`) its cause is the raised object.
+
 Histories -- every leaf history runs in its own forked child of a fresh
 interpreter (mc/explore/isolated.py), the model is consulted after every step:
 
@@ -72,7 +88,7 @@ import re
 
 import jsonschema
 from jsonschema import (Draft3Validator, Draft4Validator, Draft6Validator,
-                        Draft7Validator, FormatChecker)
+                        Draft7Validator, FormatChecker, RefResolver)
 from jsonschema.exceptions import FormatError, RefResolutionError, ValidationError
 
 from mc.explore import isolated
@@ -858,6 +874,249 @@ def kind_of(cfg, built, name, x):
     return "builtin-%s-on-string" % name
 
 
+# ---------------------------------------------------------------- below every applicator
+
+STORE_URL = "http://c12.test/doc"
+NEVER = {"not": {}}                 # valid for nothing, in the drafts that have `not`
+
+# position -> (drafts, how a failing `format` shows: "direct" = the format error itself is yielded,
+#              "context" = one error of the wrapping keyword with the format error as its only context,
+#              "opaque" = an error of the wrapping keyword, nothing of the format error is shown)
+BELOW = collections.OrderedDict([
+    ("top", (DRAFTS, "direct")),
+    ("properties", (DRAFTS, "direct")),
+    ("items", (DRAFTS, "direct")),
+    ("items-array-form", (DRAFTS, "direct")),
+    ("additionalItems", (DRAFTS, "direct")),
+    ("additionalProperties", (DRAFTS, "direct")),
+    ("patternProperties", (DRAFTS, "direct")),
+    ("dependencies", (DRAFTS, "direct")),
+    ("ref-definitions", (DRAFTS, "direct")),
+    ("ref-below-properties", (DRAFTS, "direct")),
+    ("ref-through-a-second-ref", (DRAFTS, "direct")),
+    ("items-ref-properties", (DRAFTS, "direct")),
+    ("ref-store-pointer", (DRAFTS, "direct")),
+    ("ref-store-whole-document", (DRAFTS, "direct")),
+    ("extends", ((3,), "direct")),
+    ("extends-array-form", ((3,), "direct")),
+    ("type-union-member", ((3,), "context")),
+    ("disallow-twice", ((3,), "opaque")),
+    ("allOf", ((4, 6, 7), "direct")),
+    ("anyOf", ((4, 6, 7), "context")),
+    ("oneOf", ((4, 6, 7), "context")),
+    ("not-twice", ((4, 6, 7), "opaque")),
+    ("contains", ((6, 7), "opaque")),
+    ("propertyNames", ((6, 7), "direct")),
+    ("if", ((7,), "opaque")),
+    ("then", ((7,), "direct")),
+    ("else", ((7,), "direct")),
+])
+WRAPPER = {"type-union-member": "type", "anyOf": "anyOf", "oneOf": "oneOf"}
+
+
+def place_below(pos, name, x):
+    """-> (schema, instance, path of x inside the instance, store or None), or None where x cannot stand there"""
+    f = {"format": name}
+    defs = {"definitions": {"f": f}}
+    if pos in ("top", "properties", "items", "additionalProperties"):
+        return place(pos, name, x) + (None,)
+    if pos == "items-array-form":
+        return {"items": [f]}, [x], [0], None
+    if pos == "additionalItems":
+        return {"items": [{}], "additionalItems": f}, [0, x], [1], None
+    if pos == "patternProperties":
+        return {"patternProperties": {"^k": f}}, {"k": x}, ["k"], None
+    if pos == "dependencies":
+        return {"dependencies": {"k": {"properties": {"p": f}}}}, {"k": 0, "p": x}, ["p"], None
+    if pos == "ref-definitions":
+        return dict(defs, **{"$ref": "#/definitions/f"}), x, [], None
+    if pos == "ref-below-properties":
+        return dict(defs, properties={"p": {"$ref": "#/definitions/f"}}), {"p": x}, ["p"], None
+    if pos == "ref-through-a-second-ref":
+        return {"definitions": {"f": f, "g": {"$ref": "#/definitions/f"}}, "$ref": "#/definitions/g"}, x, [], None
+    if pos == "items-ref-properties":
+        return ({"definitions": {"o": {"properties": {"p": f}}}, "items": {"$ref": "#/definitions/o"}},
+                [{"p": x}], [0, "p"], None)
+    if pos == "ref-store-pointer":
+        return {"$ref": STORE_URL + "#/defs/f"}, x, [], {STORE_URL: {"defs": {"f": f}}}
+    if pos == "ref-store-whole-document":
+        return {"$ref": STORE_URL}, x, [], {STORE_URL: f}
+    if pos == "extends":
+        return {"extends": f}, x, [], None
+    if pos == "extends-array-form":
+        return {"extends": [{}, f]}, x, [], None
+    if pos == "type-union-member":
+        return {"type": [f]}, x, [], None
+    if pos == "disallow-twice":
+        return {"disallow": [{"disallow": [f]}]}, x, [], None
+    if pos == "allOf":
+        return {"allOf": [{}, f]}, x, [], None
+    if pos in ("anyOf", "oneOf"):
+        return {pos: [f]}, x, [], None
+    if pos == "not-twice":
+        return {"not": {"not": f}}, x, [], None
+    if pos == "contains":
+        return {"contains": f}, [x], [0], None
+    if pos == "propertyNames":
+        return ({"propertyNames": f}, {x: 0}, [], None) if isinstance(x, str) else None
+    if pos == "if":
+        return {"if": f, "else": NEVER}, x, [], None
+    if pos == "then":
+        return {"if": {}, "then": f}, x, [], None
+    return {"if": NEVER, "else": f}, x, [], None
+
+
+ENTRIES = ("iter_errors", "is_valid", "validate", "jsonschema.validate")
+BELOW_INSTANCES = list(STRINGS_BY_FAMILY.get(_family(BUILTIN_REG), ("a", "b"))) + ["", None, {"a": "b"}]
+
+
+def below_configs():
+    out = []
+    for c in CONFIGS:
+        if c["kind"] != "custom" or (c["base"] == "empty" and c["reg"] == "cust"):
+            out.append(c)
+    return out
+
+
+BELOW_CONFIGS = below_configs()
+
+
+def below_names(cfg):
+    if cfg["kind"] == "custom":
+        return [cfg["reg"]]
+    if cfg["kind"] == "subclass":
+        return ["maxlen:0", "cust", "boom", BUILTIN_REG]
+    return [n for n in (BUILTIN_REG, "ip-address", "nope") if n in NAMES]
+
+
+def below_instances(cfg):
+    return BELOW_INSTANCES[:1] if cfg.get("scope") == "narrow" else BELOW_INSTANCES
+
+
+def run_entry(entry, d, schema, inst, store, chk, holder):
+    kw = {"format_checker": chk}
+    if store is not None:
+        kw["resolver"] = RefResolver("", schema, store=dict(store))
+    holder["exc"] = None
+    try:
+        if entry == "jsonschema.validate":
+            jsonschema.validate(inst, schema, cls=CLS[d], **kw)
+            return ("pass",)
+        v = CLS[d](schema, **kw)
+        if entry == "iter_errors":
+            errs = list(v.iter_errors(inst))
+            return ("fail", errs) if errs else ("pass",)
+        if entry == "is_valid":
+            return ("pass",) if v.is_valid(inst) else ("fail", None)
+        v.validate(inst)
+        return ("pass",)
+    except BaseException as e:
+        if isinstance(e, ValidationError) and entry.endswith("validate") and e is not holder["exc"]:
+            return ("fail", [e])
+        return ("raise", e)
+
+
+EXPECTED_WORD = {"pass": "pass", "fail": "fail", "fail-cause": "fail-with-cause", "fail-some-cause": "fail",
+                 "propagate": "propagation"}
+
+
+def judge_below(built, d, pos, name, x):
+    """-> (expected class, observed class, problem or None) for `format` standing below one applicator.  The
+    position is part of the signature only where the failure is particular to it (the same case at the root
+    does not fail in the same way)."""
+    exp, obs, prob = judge_at(built, d, pos, name, x)
+    if prob is not None and pos != "top":
+        at_root = judge_at(built, d, "top", name, x)[2]
+        if at_root is None or at_root[0] != prob[0]:
+            prob = ("below-%s|%s" % (pos, prob[0]), prob[1])
+    return exp, obs, prob
+
+
+def judge_at(built, d, pos, name, x):
+    cfg = built.cfg
+    schema, inst, where, store = place_below(pos, name, x)
+    shows = BELOW[pos][1]
+    exp = expected(cfg, built.known, name, x)
+    if exp == "either":             # a built-in name and a string: the checker object's conforms() decides
+        try:
+            exp = "pass" if built.chk.conforms(x, name) else "fail-some-cause"
+        except BaseException as e:
+            return exp, "?", ("conforms-raises-" + ename(e), None)
+    want = {"pass": "pass", "propagate": "raise"}.get(exp, "fail")
+    k = "unknown-name" if cfg["kind"] == "none" else kind_of(cfg, built, name, x)
+    seen = []
+    for entry in ENTRIES:
+        o = run_entry(entry, d, schema, inst, store, built.chk, built.holder)
+        raised = built.holder["exc"]
+        obs = o[0] if o[0] != "raise" else "raise-" + ename(o[1])
+        seen.append(obs)
+        more = {"entry_point": entry, "schema": schema}
+        if o[0] != want:
+            return exp, obs, ("%s|expected-%s|observed-%s" % (k, EXPECTED_WORD[exp], obs), more)
+        if want == "raise" and o[1] is not raised:
+            if (isinstance(raised, StopIteration) and type(o[1]) is RuntimeError and o[1].__cause__ is raised
+                    and "generator raised StopIteration" in str(o[1])):
+                return exp, obs, ("custom-raise-StopIteration|propagated-object-is-not-the-raised-one",
+                                  dict(more, got=repr(o[1]), raised=repr(raised)))
+            return exp, obs, ("%s|propagated-object-is-not-the-raised-one" % k,
+                              dict(more, got=repr(o[1]), raised=repr(raised)))
+        if want == "fail" and o[1] is not None and shows != "opaque":
+            if len(o[1]) != 1:
+                return exp, obs, ("error-shape", dict(more, errors=len(o[1])))
+            e = o[1][0]
+            if shows == "context":
+                if entry != "iter_errors":
+                    continue            # best_match chooses among the levels; the verdict is what counts there
+                if e.validator != WRAPPER[pos] or len(e.context) != 1:
+                    return exp, obs, ("error-shape",
+                                      dict(more, validator=e.validator, context=len(e.context)))
+                e = e.context[0]
+            if e.validator != "format" or list(e.absolute_path if shows == "direct" else e.path) != where \
+                    or not (e.instance is x or e.instance == x):
+                return exp, obs, ("error-shape",
+                                  dict(more, validator=e.validator, path=list(e.absolute_path)))
+            if exp == "fail" and e.cause is not None:
+                return exp, obs, ("%s|unexpected-cause" % k, dict(more, cause=repr(e.cause)))
+            if exp == "fail-cause" and e.cause is not raised:
+                return exp, obs, ("%s|cause-is-another-object" % k,
+                                  dict(more, cause=repr(e.cause), raised=repr(raised)))
+    return exp, seen[0], None
+
+
+def run_below(unit, ctx):
+    _, d, i0, i1 = unit
+    ev = nt = 0
+    outcomes, viol, seen = {}, [], {}
+    mine = [pos for pos in BELOW if d in BELOW[pos][0]]
+    for cfg in BELOW_CONFIGS[i0:i1]:
+        built = Built(cfg)
+        for name in below_names(cfg):
+            for pos in mine:
+                for x in below_instances(cfg):
+                    if place_below(pos, name, x) is None:
+                        continue
+                    ev += 1
+                    if cfg["kind"] != "none" and built.decides(name):
+                        nt += 1
+                    exp, obs, prob = judge_below(built, d, pos, name, x)
+                    key = "below-%s:%s->%s" % (pos, exp, obs)
+                    outcomes[key] = outcomes.get(key, 0) + 1
+                    if prob is not None:
+                        sig = "C12|" + prob[0]
+                        n = seen.get(sig, 0)
+                        seen[sig] = n + 1
+                        if n < 3:
+                            case = {"draft": d, "checker": cfg, "format": name, "instance": x, "below": pos}
+                            viol.append({"signature": sig, "case": case, "size": len(repr(case)),
+                                         "detail": {"expected": exp, "observed": obs, "more": prob[1]}})
+    if not registries_intact():
+        raise AssertionError("harness polluted the class-wide FormatChecker registry")
+    dependent = settle_alone(viol)
+    return {"evaluations": ev, "nontrivial": nt, "violations": viol, "samples": [], "outcomes": outcomes,
+            "counters": {"violating_cases": sum(seen.values()), "reported_cases_that_need_earlier_cases": dependent,
+                         "cases_below_an_applicator": ev}}
+
+
 # ---------------------------------------------------------------- histories (executed in the nursery)
 
 H_STR = list(STRINGS_BY_FAMILY.get(_family(BUILTIN_REG), ("a", "")))       # [conforming, non-conforming] for BUILTIN_REG
@@ -1073,6 +1332,7 @@ def nursery_h2(arg):
 
 PER_UNIT = 6
 PER_UNIT_NARROW = 150
+PER_UNIT_BELOW = 40
 
 
 def plan(ctx):
@@ -1083,6 +1343,11 @@ def plan(ctx):
             units.append(("prod", d, i, min(i + PER_UNIT, N_WIDE)))
         for i in range(N_WIDE, len(CONFIGS), PER_UNIT_NARROW):
             units.append(("prod", d, i, min(i + PER_UNIT_NARROW, len(CONFIGS))))
+    for d in DRAFTS:
+        for i in range(0, len(BELOW_CONFIGS), PER_UNIT_BELOW):
+            units.append(("below", d, i, min(i + PER_UNIT_BELOW, len(BELOW_CONFIGS))))
+    nbelow = sum(len(below_names(c)) * sum(1 for x in below_instances(c) if place_below(pos, "n", x) is not None)
+                 for c in BELOW_CONFIGS for pos in BELOW for d in BELOW[pos][0])
     g = H1_GROUP[ctx.tier]
     for world in H1_WORLDS[ctx.tier]:
         for i in range(0, len(H1_OPS), g):
@@ -1104,7 +1369,9 @@ def plan(ctx):
                  "family, ten more non-strings and three more schema positions: items, additionalProperties, $ref), so "
                  "cases are distinct by construction; each case runs iter_errors, check() and conforms() on the real "
                  "code and is compared with the model `expected`; non-trivial = a checker is given and it decides "
-                 "something under the format name; the remaining cases assert inertness.  histories: every operation "
+                 "something under the format name; the remaining cases assert inertness.  below: case = "
+                 "(draft, configuration, name, instance, position of `format` below one applicator), the full product "
+                 "of bounds.below, each case through four entry points.  histories: every operation "
                  "sequence of the stated depth over the stated operations (H1: sequences that end in a validation; all "
                  "shorter ones are their prefixes), each leaf executed on fresh objects in its own forked child of a "
                  "fresh interpreter, the model compared after every step; evaluations counts every distinct prefix "
@@ -1119,6 +1386,11 @@ def plan(ctx):
                    "checker_subclasses": ["%s/%s" % sb for sb in SUBCLASS_KINDS],
                    "subset_base": SUBSET_BASE, "draft_checkers": DRAFT_CHECKERS, "drafts": list(DRAFTS),
                    "positions": list(POSITIONS), "cases": ncases,
+                   "below": {"positions": {pos: {"drafts": list(BELOW[pos][0]), "a_failure_shows": BELOW[pos][1]}
+                                           for pos in BELOW},
+                             "configurations": len(BELOW_CONFIGS), "instances": BELOW_INSTANCES,
+                             "instances_for_the_exception_alphabet": BELOW_INSTANCES[:1],
+                             "entry_points": list(ENTRIES), "cases": nbelow},
                    "H1": {"worlds(base checker, draft)": H1_WORLDS[ctx.tier], "depth": H1_DEPTH[ctx.tier],
                           "operations": H1_OPS, "strings": H_STR, "histories": h1_hist},
                    "H2": {"names": REGISTERED, "objects": {n: h2_objects(n) for n in REGISTERED},
@@ -1187,11 +1459,18 @@ def run_product(unit, ctx):
                                         "expected": exp, "observed": obs})
     if not registries_intact():
         raise AssertionError("harness polluted the class-wide FormatChecker registry")
+    dependent = settle_alone(viol)
+    return {"evaluations": ev, "nontrivial": nt, "violations": viol, "samples": samples, "outcomes": outcomes,
+            "counters": {"violating_cases": sum(seen.values()), "reported_cases_that_need_earlier_cases": dependent,
+                         "no_checker_cases_a_default_checker_would_reject": off_would_reject}}
+
+
+def settle_alone(viol):
+    """A worker has executed many cases before this one, and a configuration's checker object serves all its
+    cases.  Each reported case is executed once more alone, in its own child of a fresh interpreter: what
+    happens there is what a replay will show, and decides the signature.  -> number of cases that need company"""
     dependent = 0
     if viol:
-        # A worker has executed many cases before this one, and a configuration's checker object serves all its
-        # cases.  Each reported case is executed once more alone, in its own child of a fresh interpreter: what
-        # happens there is what a replay will show, and decides the signature.
         alone = isolated.run("mc.props.c12", "nursery_cases", [v["case"] for v in viol])
         for v, tail in zip(viol, alone):
             if tail is None:
@@ -1202,13 +1481,13 @@ def run_product(unit, ctx):
             elif "C12|" + tail != v["signature"]:
                 v["detail"]["signature_in_the_worker"] = v["signature"]
                 v["signature"] = "C12|" + tail
-    return {"evaluations": ev, "nontrivial": nt, "violations": viol, "samples": samples, "outcomes": outcomes,
-            "counters": {"violating_cases": sum(seen.values()), "reported_cases_that_need_earlier_cases": dependent,
-                         "no_checker_cases_a_default_checker_would_reject": off_would_reject}}
+    return dependent
 
 
 def judge_case(case):
     built = Built(case["checker"])
+    if "below" in case:
+        return judge_below(built, case["draft"], case["below"], case["format"], real(case["instance"]))
     return judge(built, case["draft"], case["position"], case["format"], real(case["instance"]))
 
 
@@ -1251,6 +1530,8 @@ def run_histories(unit, ctx):
 def run_unit(unit, ctx):
     if unit[0] == "prod":
         return run_product(unit, ctx)
+    if unit[0] == "below":
+        return run_below(unit, ctx)
     return run_histories(unit, ctx)
 
 
